@@ -28,6 +28,20 @@ pub fn dkz_indep(signal: &SignalBeam, pump: &PumpBeam, cs: &CrystalSetup, pp: &P
   kp.z - ks.z - ki.z - kl
 }
 
+/// conditioning of `index_along` for the three beams: the smallest relative separation |n_o − n_e|/n of the two index
+/// sheets along a beam's direction.  Next to an optic axis the sheets touch, the Fresnel quadratic has a near-double
+/// root and the computed index carries a relative rounding error of about ε/gap.
+pub fn sheet_gap(signal: &SignalBeam, pump: &PumpBeam, cs: &CrystalSetup, pp: &PeriodicPoling) -> f64 {
+  let idler = IdlerBeam::try_new_optimum(signal, pump, cs, pp).unwrap();
+  let mut g = f64::INFINITY;
+  for b in [&**signal, &**pump, &*idler] {
+    let no = *cs.index_along(b.vacuum_wavelength(), b.direction(), PolarizationType::Ordinary);
+    let ne = *cs.index_along(b.vacuum_wavelength(), b.direction(), PolarizationType::Extraordinary);
+    g = g.min((no - ne).abs() / no);
+  }
+  g
+}
+
 // ---- history independence (C04): a sample of optimiser calls is repeated at the end of the run in another order
 struct AutoCall {
   cs: CrystalSetup,
@@ -202,11 +216,15 @@ fn judge_period(ctx: &mut Ctx, route: &str, cs: &CrystalSetup, signal: &SignalBe
           format!("{}/phasematch/wrong-sign", pre)
         } else if clamped {
           format!("{}/phasematch/clamped-at-length", pre)
+        } else if d.abs() <= 1e-5 * z.abs() {
+          // the search did reduce the mismatch by five orders of magnitude: what is left is the floor of the
+          // computed Δkz itself (rounding of the indices), not a failure to find the minimum
+          format!("{}/phasematch/at-noise-floor", pre)
         } else {
           format!("{}/phasematch/not-converged", pre)
         }),
         &format!(
-          "{} period={:e} dkz={:e} half_phase={:e} z_unpoled={:e} over_um={:.4} guess_um={:.4} theta_i_unpoled={:.4} lp_nm={:.3} ls_nm={:.3} li_nm={:.3}",
+          "{} period={:e} dkz={:e} half_phase={:e} z_unpoled={:e} over_um={:.4} guess_um={:.4} theta_i_unpoled={:.4} lp_nm={:.3} ls_nm={:.3} li_nm={:.3} sheet_gap={:e} theta_i_poled={:.4} theta_i_max={:.4}",
           what,
           v,
           d,
@@ -217,7 +235,12 @@ fn judge_period(ctx: &mut Ctx, route: &str, cs: &CrystalSetup, signal: &SignalBe
           th_of(&IdlerBeam::try_new_optimum(signal, pump, cs, &PeriodicPoling::Off).unwrap()),
           lp * 1e9,
           ls * 1e9,
-          ls * lp / (ls - lp) * 1e9
+          ls * lp / (ls - lp) * 1e9,
+          sheet_gap(signal, pump, cs, pp),
+          th_of(&IdlerBeam::try_new_optimum(signal, pump, cs, pp).unwrap()),
+          th_of(&IdlerBeam::try_new_optimum(signal, pump, cs, pp).unwrap())
+            .abs()
+            .max(th_of(&IdlerBeam::try_new_optimum(signal, pump, cs, &PeriodicPoling::Off).unwrap()).abs())
         ),
       );
       ctx.s("C04.period", (v < 0.0) == (z < 0.0), &format!("{}/sign", pre), &format!("{} period={:e} z_unpoled={:e}", what, v, z));
@@ -763,6 +786,29 @@ pub fn run(ctx: &mut Ctx) {
     let nses = if mode == "routes" { ctx.n } else { ctx.n / 15 };
     for _ in 0..nses {
       period_route_session(ctx, &spdc0, &cr);
+    }
+  }
+
+  if mode == "all" || mode == "axis" {
+    // targeted: beams within a few mrad of the optic axis of a uniaxial crystal (crystal θ = 0 or tiny), non-collinear
+    // signal: `index_along` is ill-conditioned there (near-double root) and the computed Δkz carries rounding noise
+    let nax = if mode == "axis" { ctx.n } else { ctx.n / 20 };
+    for _ in 0..nax {
+      let crystal = ctx.rng.pick(&cr).clone();
+      let pm = *ctx.rng.pick(&PMS);
+      let ctheta = match ctx.rng.below(3) {
+        0 => 0.0,
+        _ => ctx.rng.log_range(1e-6, 3e-2),
+      };
+      let cphi = ctx.rng.range(0.0, TAU);
+      let celsius = ctx.rng.range(0.0, 100.0);
+      let length = ctx.rng.range(1e-3, 30e-3);
+      let (lp, ls) = gen_wavelengths(&mut ctx.rng, &crystal);
+      let ths = if ctx.rng.below(4) == 0 { 0.0 } else { ctx.rng.log_range(1e-5, 0.05) };
+      let phs = ctx.rng.range(0.0, TAU);
+      let cs = mk_setup(crystal, pm, ctheta, cphi, length, celsius, false);
+      ctx.count("period/targeted-near-optic-axis");
+      period_case(ctx, &cs, lp, ls, ths, phs);
     }
   }
 
